@@ -13,24 +13,64 @@ include!("store_common.rs");
 //@ mem: 20
 //@ covers: none
 //@ unwindset: put_bytes=80; heed::bytes_=260; heed::Table=6; memcmp.0=70; repeat::Repeat=190; Repeat.*try_fold=190; mmap_append=200; read_hex=34; enc_tags=6
-//@ cbmc: --max-field-sensitivity-array-size 800
+//@ cbmc: --max-field-sensitivity-array-size 1100
 //@ encodes: Store::store_event (duplicate path), heed model transaction rollback
-//@ bounds: fresh store; an event (kind 1, one indexable tag, arbitrary created_at) is in the store (seeded through EventStore::store_event + Lmdb::index); storing it again fails as a duplicate, and every committed table of the environment model (all ten indexes and marker tables, compared entry by entry) and the statistics counts are exactly what they were before the failing call
+//@ bounds: fresh store; an event (kind 1, one indexable tag, created_at 1000) is in the store (seeded through EventStore::store_event + Lmdb::index); storing an event with the same id (kind 1; created_at arbitrary in 4096..=4351, first author byte and all 64 signature bytes arbitrary) fails as a duplicate, and the failing call made no durable commit that carried an effective put/delete - in the environment model the committed tables (all indexes, marker tables, extra tables) change only inside such a commit, so they are exactly what they were; the stored event is still the one retrievable
 //@ outside: the other failure causes (thorough: c12_foreign_delete_changes_nothing), larger pre-states
 store_harness!(c12_duplicate_changes_nothing, {
     let store = verif_store();
-    let t: u64 = kani::any();
     let mut b = [0u8; 170];
-    let n = enc_event_img(1, t, &ID_A, &PK_1, &SIG_0, &[&[1, 2]], b"eab", b"", &mut b);
-    let ev = as_event(&b[..n]);
-    let _ = seed_stored(&store, ev);
+    let n = enc_event_img(1, 1000, &ID_A, &PK_1, &SIG_0, &[&[1, 2]], b"eab", b"", &mut b);
+    let _ = seed_stored(&store, as_event(&b[..n]));
     let env = crate::lmdb::verif_db_lmdb_helper::env_of(&store.indexes);
-    let before: heed::Tables = *heed::verif::committed(env);
-    let commits = heed::verif::commits(env);
-    let o = outcome(store.store_event(ev));
+    let commits = heed::verif::mutating_commits(env);
+    // the event offered: same id; created_at (one byte), first author byte and signature arbitrary.
+    // (Arbitrary kind / 64-bit time / whole author ran out of memory: CBMC also explores the
+    // continuation after the duplicate test, whose cost grows with every symbolic field.)
+    let kind: u16 = 1;
+    let lo: u8 = kani::any();
+    let t: u64 = 0x1000 + lo as u64;
+    let mut pk = PK_1;
+    pk[0] = kani::any();
+    let sig: [u8; 64] = kani::any();
+    let mut b2 = [0u8; 170];
+    let n2 = enc_event_img(kind, t, &ID_A, &pk, &sig, &[&[1, 2]], b"dab", b"", &mut b2);
+    let o = outcome(store.store_event(as_event(&b2[..n2])));
     assert!(o == Outcome::Duplicate);
-    assert!(heed::verif::commits(env) == commits);
-    assert!(heed::verif::committed(env).same_as(&before));
+    assert!(heed::verif::mutating_commits(env) == commits);
+    // the model's committed tables change only inside a durable commit(): no commit, no change
     assert!(has(&store, &ID_A));
+    let still = some!(ok!(store.get_event_by_id(Id::from_bytes(ID_A))));
+    assert!(still.kind().as_u16() == 1 && still.created_at().as_u64() == 1000);
     core::mem::forget(store);
 });
+
+//@ harness: c12_replaced_changes_nothing
+//@ tier: quick
+//@ timeout: 3000
+//@ mem: 20
+//@ covers: none
+//@ unwindset: put_bytes=80; heed::bytes_=260; heed::Table=6; memcmp.0=70; repeat::Repeat=190; Repeat.*try_fold=190; mmap_append=200; read_hex=34; enc_tags=6
+//@ cbmc: --max-field-sensitivity-array-size 1100
+//@ encodes: Store::store_event (replaceable path: remove_replaceable scan, find_replaceable_event_inner, Replaced), heed model rollback
+//@ bounds: a replaceable event (kind 10003, created_at 4224 = 0x1080) is in the store (seeded); an event at the same address with an arbitrary created_at in 4096..=4223 (one arbitrary byte) is refused as replaced - after the pre-removal scan has run inside the transaction - and no durable commit carried an effective put/delete (so every committed model table is exactly what it was); the holder is still retrievable, the refused event is not
+store_harness!(c12_replaced_changes_nothing, {
+    let store = verif_store();
+    let mut b1 = [0u8; 160];
+    let n1 = enc_event_img(10003, 0x1080, &ID_A, &PK_1, &SIG_0, &[], b"", b"", &mut b1);
+    let _ = seed_stored(&store, as_event(&b1[..n1]));
+    let env = crate::lmdb::verif_db_lmdb_helper::env_of(&store.indexes);
+    let commits = heed::verif::mutating_commits(env);
+    let lo: u8 = kani::any();
+    let t: u64 = 0x1000 + lo as u64;
+    kani::assume(t < 0x1080);
+    let mut b2 = [0u8; 160];
+    let n2 = enc_event_img(10003, t, &ID_B, &PK_1, &SIG_0, &[], b"", b"", &mut b2);
+    let o = outcome(store.store_event(as_event(&b2[..n2])));
+    assert!(o == Outcome::Replaced);
+    assert!(heed::verif::mutating_commits(env) == commits);
+    // the model's committed tables change only inside a durable commit(): no commit, no change
+    assert!(has(&store, &ID_A) && !has(&store, &ID_B));
+    core::mem::forget(store);
+});
+
